@@ -208,6 +208,50 @@ func genTruncation(rng *rand.Rand) ([]byte, string) {
 	return b[:cut], fmt.Sprintf("truncation|%s|%d-of-%d", corpusNames[k], cut, len(b))
 }
 
+// genSizeField: an element of fixed size whose size field says something else, everything around it well-formed: the
+// INDEX header of a valid index file, or ENTRY / DEVICE / ACL_GROUP_OBJ / ACL_DEFAULT in an element stream. Such input
+// is malformed and must yield an error.
+func genSizeField(rng *rand.Rand) ([]byte, string, string) {
+	wrongFor := func(right uint64) uint64 {
+		w := []uint64{0, 16, 17, right - 1, right + 1, right + 8, right - 8, 1 << 63, ^uint64(0)}[rng.Intn(9)]
+		if w == right {
+			w = right + 16
+		}
+		return w
+	}
+	if rng.Intn(2) == 0 {
+		var ks []int
+		for k, n := range corpusNames {
+			if isIndexName(n) && len(corpus[k]) >= 48 {
+				ks = append(ks, k)
+			}
+		}
+		k := ks[rng.Intn(len(ks))]
+		b := append([]byte(nil), corpus[k]...)
+		w := wrongFor(48)
+		binary.LittleEndian.PutUint64(b, w)
+		return b, fmt.Sprintf("sizefield|index-header|%s|%d", corpusNames[k], w), "index"
+	}
+	type el struct {
+		name string
+		typ  uint64
+		size uint64
+	}
+	e := []el{{"entry", desync.CaFormatEntry, 64}, {"device", desync.CaFormatDevice, 32}, {"acl-group-obj", desync.CaFormatACLGroupObj, 24}, {"acl-default", desync.CaFormatACLDefault, 48}}[rng.Intn(4)]
+	w := wrongFor(e.size)
+	body := make([]byte, e.size-16)
+	if e.name == "entry" {
+		copy(body, validEntry(0100644)[16:])
+	}
+	out := append(u64(w, e.typ), body...)
+	if e.name != "entry" {
+		out = append(validEntry(0100644), out...)
+	}
+	out = append(out, u64(16+3, desync.CaFormatPayload)...)
+	out = append(out, "abc"...)
+	return out, fmt.Sprintf("sizefield|%s|%d", e.name, w), "format"
+}
+
 func isIndexName(n string) bool {
 	return strings.HasSuffix(n, ".caibx") || strings.HasSuffix(n, ".caidx") || strings.HasSuffix(n, ".index") || strings.HasPrefix(n, "own-index")
 }
@@ -287,7 +331,10 @@ func run(c *harness.Ctx, i int) {
 	for k := 0; k < perCase; k++ {
 		var in []byte
 		var gen string
-		switch rng.Intn(9) {
+		forced := ""
+		switch rng.Intn(10) {
+		case 9:
+			in, gen, forced = genSizeField(rng)
 		case 8:
 			in, gen = genValid(rng)
 		case 0, 1, 2:
@@ -306,6 +353,9 @@ func run(c *harness.Ctx, i int) {
 			targets = []string{"http-put"}
 		}
 		target := targets[rng.Intn(len(targets))]
+		if forced != "" {
+			target = forced
+		}
 		os.WriteFile(inputFile, in, 0644)
 		c.Info("input %d: target=%s gen=%s len=%d (saved at %s)", k, target, gen, len(in), inputFile)
 		c.LogInfo()
@@ -462,6 +512,11 @@ func run(c *harness.Ctx, i int) {
 		}
 		if bound := uint64(1<<20) + 32*uint64(len(in)); r.alloc > bound {
 			c.Violation("alloc:"+target+":"+classOf(gen), "%s allocated %d bytes for an input of %d bytes (%s; bound %d): %x...", target, r.alloc, len(in), gen, bound, in[:min(len(in), 48)])
+			saveInput(c, in)
+			return
+		}
+		if strings.HasPrefix(gen, "sizefield|") && strings.HasPrefix(r.outcome, "ok") {
+			c.Violation("malformed-accepted:size-field", "%s: a fixed-size element whose size field is wrong was decoded without an error (%s, target %s)", gen, r.outcome, target)
 			saveInput(c, in)
 			return
 		}
